@@ -1,7 +1,7 @@
 #!/bin/bash
 # run every claimed check (tier from $1, default quick) sequentially; print one line per property
 TIER=${1:-quick}
-cd /verif
+cd "$(dirname "$0")/.."
 for p in $(python3 -c "import json;print(' '.join(c['property_id'] for c in json.load(open('MANIFEST.json'))['checks']))"); do
   python3 check.py $p --tier $TIER 2>&1 | grep -E "^OK|^VIOL|^KNOWN|^WARN|internal" | cut -c1-220
 done
